@@ -234,13 +234,22 @@ def myokit_to_gotran(model: myokit.Model, protocol=None) -> ODE:
     )
 
 
-def gotran_to_myokit(ode: ODE, time_component="engine", time_unit="s") -> myokit.Model:
+def gotran_to_myokit(
+    ode: ODE, time_component="engine", time_unit="s", default_component="main"
+) -> myokit.Model:
     """Convert a gotran ODE to myokit model
 
     Parameters
     ----------
     ode : gotranx.ode.ODE
         The gotran ODE
+    time_component : str, optional
+        Name of the component holding the time variable, by default "engine"
+    time_unit : str, optional
+        Unit of time, by default "s"
+    default_component : str, optional
+        Name of the Myokit component used for atoms that are declared without
+        a component, by default "main"
 
     Returns
     -------
@@ -267,11 +276,16 @@ def gotran_to_myokit(ode: ODE, time_component="engine", time_unit="s") -> myokit
     # assumptions and therefore differ from plain symbols of the same name)
     time_symbol = sp.Symbol(f"{time_component}.time")
     global_var_map = {sp.Symbol("time"): time_symbol, sp.Symbol("t"): time_symbol, ode.t: time_symbol}
+    def component_name(component) -> str:
+        # Atoms declared without a component belong to the component "",
+        # which is not a valid Myokit name
+        return component.name if component.name != "" else default_component
+
     for component in ode.components:
-        if component.name == time_component:
+        if component_name(component) == time_component:
             comp = model[time_component]
         else:
-            comp = model.add_component(component.name)
+            comp = model.add_component(component_name(component))
 
         for state_derivative in component.state_derivatives:
             state = state_derivative.state
@@ -296,7 +310,7 @@ def gotran_to_myokit(ode: ODE, time_component="engine", time_unit="s") -> myokit
     sympy_reader = myokit.formats.sympy.SymPyExpressionReader(model=model)
     # Then we can add expressions
     for component in ode.components:
-        comp = model[component.name]
+        comp = model[component_name(component)]
 
         for state_derivative in component.state_derivatives:
             state = state_derivative.state
